@@ -54,7 +54,9 @@ def gen_json(rng: Rng, depth: int = 0):
     if depth >= 4 or r < 0.45:
         k = rng.random()
         if k < 0.25:
-            return rng.pick(["", "a", "héllo wörld", "日本語", "emoji 🔑", "quote\"and\\slash", "line\nbreak\ttab", "\u0000nul", "</script>", " lead"])
+            return rng.pick(["", "a", "héllo wörld", "日本語", "emoji 🔑", "quote\"and\\slash", "line\nbreak\ttab", "\u0000nul", "</script>", " lead",
+                             # text that looks like structure to anything but a JSON parser
+                             "[" * 600, "{" * 530, "]}" * 400, "[{\"a\":" * 300, "\\\"" * 200 + "[" * 520, "x" * 5000])
         if k < 0.5:
             return rng.pick([0, 1, -1, 2 ** 31, 2 ** 53 + 1, -2 ** 63, 10 ** 30, 1700000000])
         if k < 0.7:
@@ -63,7 +65,7 @@ def gen_json(rng: Rng, depth: int = 0):
             return rng.pick([True, False])
         return None
     if r < 0.75:
-        return {rng.pick(["k", "ключ", "a b", "", "x.y", "🔑"]) + str(i): gen_json(rng, depth + 1) for i in range(rng.randrange(0, 4))}
+        return {rng.pick(["k", "ключ", "a b", "", "x.y", "🔑", "{" * 520, "[[["]) + str(i): gen_json(rng, depth + 1) for i in range(rng.randrange(0, 4))}
     return [gen_json(rng, depth + 1) for _ in range(rng.randrange(0, 4))]
 
 
